@@ -26,6 +26,7 @@ use crate::{
     value::{AbstractRelation, IntegerOrInfinity, JsValue},
 };
 use cow_utils::CowUtils;
+use num_bigint::BigUint;
 use num_traits::float::FloatCore;
 
 mod globals;
@@ -339,29 +340,6 @@ impl Number {
         }
     }
 
-    /// `flt_str_to_exp` - used in `to_precision`
-    ///
-    /// This function traverses a string representing a number,
-    /// returning the floored log10 of this number.
-    fn flt_str_to_exp(flt: &str) -> i32 {
-        let mut non_zero_encountered = false;
-        let mut dot_encountered = false;
-        for (i, c) in flt.chars().enumerate() {
-            if c == '.' {
-                if non_zero_encountered {
-                    return (i as i32) - 1;
-                }
-                dot_encountered = true;
-            } else if c != '0' {
-                if dot_encountered {
-                    return 1 - (i as i32);
-                }
-                non_zero_encountered = true;
-            }
-        }
-        (flt.len() as i32) - 1
-    }
-
     /// `round_to_precision` - used in `to_precision`
     ///
     /// This procedure has two roles:
@@ -488,18 +466,11 @@ impl Number {
         // 10
         } else {
             // Due to f64 limitations, this part differs a bit from the spec,
-            // but has the same effect. It manipulates the string constructed
-            // by `format`: digits with an optional dot between two of them.
-            suffix = format!("{this_num:.100}");
+            // but has the same effect. It manipulates the string of all the
+            // decimal digits of the exact value of the number.
 
-            // a: getting an exponent
-            exponent = Self::flt_str_to_exp(&suffix);
-            // b: getting relevant digits only
-            if exponent < 0 {
-                suffix = suffix.split_off((1 - exponent) as usize);
-            } else if let Some(n) = suffix.find('.') {
-                suffix.remove(n);
-            }
+            // a, b: getting an exponent and the relevant digits
+            (suffix, exponent) = f64_exact_digits(this_num);
             // impl: having exactly `precision` digits in `suffix`
             if Self::round_to_precision(&mut suffix, precision) {
                 exponent += 1;
@@ -938,6 +909,25 @@ impl Number {
         let x = f64_to_int32(x);
         !x
     }
+}
+
+/// Helper function that returns the decimal digits `d₁d₂…dₙ` of the exact value of a finite,
+/// positive float, and the exponent `e` such that this value is `d₁.d₂…dₙ × 10^e`.
+///
+/// There are at most 767 significant digits; the result can have trailing zeros.
+fn f64_exact_digits(n: f64) -> (String, i32) {
+    // n = mantissa × 2^exponent
+    let (mantissa, exponent, _) = n.integer_decode();
+    let mut int = BigUint::from(mantissa);
+    if exponent >= 0 {
+        int <<= exponent.unsigned_abs();
+    } else {
+        // mantissa × 2^exponent = (mantissa × 5^-exponent) × 10^exponent
+        int *= BigUint::from(5_u8).pow(exponent.unsigned_abs().into());
+    }
+    let digits = int.to_string();
+    let exponent = digits.len() as i32 - 1 + i32::from(exponent.min(0));
+    (digits, exponent)
 }
 
 /// Helper function that formats a float as a ES6-style exponential number string.
